@@ -278,6 +278,33 @@ def make_subclasses():
             """Overridden."""
             super().lock()
 
+        def no_doc(self, n: int = 0) -> int:
+            return n
+
+        def empty_doc(self) -> str:
+            """"""
+            return "e"
+
+        def blank_doc(self) -> str:
+            """
+            """
+            return "b"
+
+        def long_doc(self, flag: bool = False) -> str:
+            """
+
+
+            The first non-empty line comes after blank ones.
+
+            And there is more text
+            over several lines.
+            """
+            return str(flag)
+
+        @property
+        def undocumented(self) -> int:
+            return 3
+
     import ctrlsubs
     return SubA, SubB, SubC, SubD, ctrlsubs.make(TaskPool)
 
